@@ -1190,6 +1190,39 @@ class Ctx:
         self.env = saved
         return out
 
+    def ev_SetComp(self, n):
+        # {elt for t1 in <concrete> for t2 in <concrete> ...}: all generators over concrete iterables, concrete
+        # (hashable, non-symbolic) elements; the value is a python list of the distinct elements in first-occurrence
+        # order (contracts / code only ever sort it, test membership or iterate)
+        out = []
+        saved = dict(self.env)
+
+        def rec(k):
+            if k == len(n.generators):
+                v = self.ev(n.elt)
+                if is_z3(v) or (isinstance(v, tuple) and any(is_z3(x) for x in v)):
+                    raise Unsupported("symbolic element in a set comprehension")
+                if v not in out:
+                    out.append(v)
+                return
+            g = n.generators[k]
+            for item in self.iter_concrete(self.ev(g.iter), n):
+                self.assign(g.target, item)
+                ok = True
+                for cond in g.ifs:
+                    t = self.truth(self.ev(cond))
+                    if not isinstance(t, bool):
+                        t = self.decide(t, n.lineno)
+                    ok = ok and t
+                if ok:
+                    rec(k + 1)
+
+        try:
+            rec(0)
+        finally:
+            self.env = saved
+        return out
+
     def comprehension(self, n):
         if len(n.generators) != 1:
             raise Unsupported("nested comprehension")
